@@ -221,7 +221,7 @@ def _h_planar(rec):
     except Exception as ex:  # noqa: BLE001
         tried.append(f"model not usable: {ex}")
     for s_ in (0.1, 1.0, 2.0, 5.0):
-        for wu in (-30.0, -5.0, -1.5, 0.0, 3.0):
+        for wu in (-8.0, -3.0, -1.5, 0.0, 3.0):
             r = rt.rt_planar(s_, np.array([1.0, 0.0]), np.array([wu, 0.3]), 0.2)
             if r:
                 return True, r
